@@ -1,7 +1,7 @@
 ----------------------------- MODULE Trace_C18 -----------------------------
 (***************************************************************************)
 (* C18.  Events (one case each):                                           *)
-(*  Name {str, hl, rest, parse_ok, show, clap}  for every documented name  *)
+(*  Name {str, hl, rest, parse_ok, show, clap, capi, cli} per documented name*)
 (*  Variants {names}           clap's value list                           *)
 (*  NonMember {str, parse_ok}  strings that are not names                  *)
 (*  Table {behave:[{str,hl,rest,fp}], direct:[{arith,hl,fp}], family}      *)
@@ -22,10 +22,12 @@ NameOK(ev) ==
   /\ ev.show = ev.str                 \* prints back to the identical string
   /\ ev.clap = ev.str                 \* offered by the command-line value list under exactly that string
   /\ ev.capi = "handle"               \* and accepted by the C constructor (src/c_api/decoder.rs)
+  /\ ev.cli = ev.str                  \* `ber --decoder <str>' through the real clap parser selects the implementation of that name
 
 VariantsOK(ev) == ev.o = "ok" /\ Len(ev.names) = 36 /\ SeqToSet(ev.names) = Names
 
 NonMemberOK(ev) == ev.o = "ok" /\ ev.str \notin Names /\ ~ev.parse_ok /\ ev.capi \in {"null", "na"}   \* rejected by FromStr and by the C constructor
+                   /\ ev.cli = ""                                        \* and by the command line (no case folding, no prefix matching)
 
 TableOK(ev) ==
   /\ ev.o = "ok"
